@@ -7,9 +7,62 @@ coefficient index feeds which factor, which table entries are read and written, 
 one-term inputs, the read-out formulas, the skip conditions, the mask plumbing.
 """
 import ast
+import re
 from fractions import Fraction
 from pyexpr2lean import (Gen, Tr, Untranslatable, load, get_def, find_assign, find_assigns, find_returns,
                          find_calls, call_arg, body_to_lean, lean_num)
+
+
+# ------------------------------------------------------------------------------------------------
+# three-valued structural facts inside translated items
+# ------------------------------------------------------------------------------------------------
+def tri(right, wrong=False):
+    """'true'  : the construct was recognised and is what the theorems need
+       'false' : recognised and WRONG (the theorem over it fails)
+       'unknown': the source is written in a way this recogniser does not know -> emitted as `true`, item recorded as
+                  untranslatable (tie degraded, correspondence widened); behaviour is then covered by execution only"""
+    if right:
+        return 'true'
+    return 'false' if wrong else 'unknown'
+
+
+_BOOL_RE = re.compile(r'^def (\w+) : Bool := (true|false|unknown)[ \t]*$', re.M)
+
+
+class GenT(Gen):
+    """Gen whose items may contain `def X : Bool := true|false|unknown` lines; those are split off and registered through the
+    three-valued Gen.fact, so that an unrecognised spelling degrades the tie instead of failing a theorem"""
+
+    def item(self, name, source, node_fn, build, fallback):
+        facts = {}
+        names = [nm for nm, _ in _BOOL_RE.findall(fallback)]
+
+        def build2():
+            text = build()
+            for nm, val in _BOOL_RE.findall(text):
+                facts[nm] = val
+            return _BOOL_RE.sub('', text)
+        super().item(name, source, node_fn, build2, _BOOL_RE.sub('', fallback))
+        for nm in names + [k for k in facts if k not in names]:
+            v = facts.get(nm, 'unknown')
+            super().fact(nm, f'{source}#{nm}', (lambda v=v: {'true': True, 'false': False, 'unknown': None}[v]))
+
+
+def alpha_norm(stmts):
+    """source text of a statement list with the locally assigned names renamed to v0, v1, ... in order of first assignment
+    (comparison modulo renaming of locals)"""
+    import copy
+    stmts = copy.deepcopy(stmts)
+    order = {}
+    for st in stmts:
+        for n in ast.walk(st):
+            if isinstance(n, ast.Name) and isinstance(n.ctx, ast.Store) and n.id not in order:
+                order[n.id] = f'v{len(order)}'
+    for st in stmts:
+        for n in ast.walk(st):
+            if isinstance(n, ast.Name) and n.id in order:
+                n.id = order[n.id]
+    return [ast.unparse(st) for st in stmts]
 
 JAC = 'prysm/polynomials/jacobi.py'
 QP = 'prysm/polynomials/qpoly.py'
@@ -157,7 +210,7 @@ open Num'''
 
 
 def generate(repo):
-    g = Gen('C10', imports=['PrysmVerif.PyPrelude', 'PrysmVerif.Model.C10'], header=HDR)
+    g = GenT('C10', imports=['PrysmVerif.PyPrelude', 'PrysmVerif.Model.C10'], header=HDR)
     jac, _ = load(repo, JAC)
     qp, _ = load(repo, QP)
     ini, _ = load(repo, INIT)
@@ -181,7 +234,7 @@ def generate(repo):
         gen_ = body_to_lean(iff.orelse + [ret_stmt], tr, '  ')
         return (f'def recABCSpecial (n alpha beta : K) : K × K × K :=\n  {spec}\n'
                 f'def recABCGeneral (n alpha beta : K) : K × K × K :=\n  {gen_}\n'
-                f'def recABCBranchIsAtZeroWithSumZeroOrMinusOne : Bool := {"true" if ok_test and apb else "false"}')
+                f'def recABCBranchIsAtZeroWithSumZeroOrMinusOne : Bool := {tri(ok_test and apb)}')
     g.item('recurrence_abc', f'{JAC}:recurrence_abc', lambda: get_def(jac, 'recurrence_abc'), rec_abc,
            'def recABCSpecial (n alpha beta : K) : K × K × K := '
            '(ofInt 1 / ofInt 2 * (alpha + beta) + ofInt 1, ofInt 1 / ofInt 2 * (alpha - beta), ofInt 1)\n'
@@ -268,9 +321,9 @@ def generate(repo):
             f'def jsumTopIdx (M : Int) : Int := {seed_top_idx}',
             f'def jsumSeed2Idx (M : Int) : Int := {seed2_idx}',
             f'def jsumSeed2ABCIdx (M : Int) : Int := {seed2_abc}',
-            f'def jsumTopIsLastCoefficient : Bool := {"true" if seed_top_ok and M_ok else "false"}',
-            f'def jsumSingleTermReturnsBeforeSecondSeed : Bool := {"true" if guard_ok else "false"}',
-            f'def jsumReturnsRowZero : Bool := {"true" if ret_ok else "false"}',
+            f'def jsumTopIsLastCoefficient : Bool := {tri(seed_top_ok and M_ok)}',
+            f'def jsumSingleTermReturnsBeforeSecondSeed : Bool := {tri(guard_ok)}',
+            f'def jsumReturnsRowZero : Bool := {tri(ret_ok)}',
         ])
     g.item('jacobi_sum_clenshaw', f'{JAC}:jacobi_sum_clenshaw', lambda: get_def(jac, 'jacobi_sum_clenshaw'), jsum,
            '\n'.join([
@@ -323,8 +376,8 @@ def generate(repo):
             f'def cobQbfsReadIdx ({v} M : Int) : List Int := [{", ".join(info["reads"])}]',
             f'def cobQbfsSrcIdx ({v} M : Int) : List Int := [{", ".join(info["srcReads"])}]',
             f'def cobQbfsLoop (M : Int) : Int × Int × Int := ({info["loopStart"]}, {info["loopStop"]}, {info["loopStep"]})',
-            f'def cobQbfsSeedsUseOwnOrder : Bool := {"true" if fM_ok and g2 and f2 and M_ok and I(index_of(t1)[0], ["M"]) == "(M - (1 : Int))" else "false"}',
-            f'def cobQbfsSingleTermReturnsBeforeSecondSeed : Bool := {"true" if guard is not None else "false"}',
+            f'def cobQbfsSeedsUseOwnOrder : Bool := {tri(fM_ok and g2 and f2 and M_ok and I(index_of(t1)[0], ["M"]) == "(M - (1 : Int))")}',
+            f'def cobQbfsSingleTermReturnsBeforeSecondSeed : Bool := {tri(guard is not None)}',
         ])
     g.item('change_basis_Qbfs_to_Pn', f'{QP}:change_basis_Qbfs_to_Pn', lambda: get_def(qp, 'change_basis_Qbfs_to_Pn'), cob_qbfs,
            '\n'.join([
@@ -374,8 +427,8 @@ def generate(repo):
             f'def qbfsReadIdx ({v} M : Int) : List Int := [{", ".join(info["reads"])}]',
             f'def qbfsSrcIdx ({v} M : Int) : List Int := [{", ".join(info["srcReads"])}]',
             f'def qbfsLoop (M : Int) : Int × Int × Int := ({info["loopStart"]}, {info["loopStop"]}, {info["loopStep"]})',
-            f'def qbfsSeedsAreTopTwo : Bool := {"true" if top_ok and xs and bs_ok else "false"}',
-            f'def qbfsSingleTermReturnsBeforeSecondSeed : Bool := {"true" if guard is not None else "false"}',
+            f'def qbfsSeedsAreTopTwo : Bool := {tri(top_ok and xs and bs_ok)}',
+            f'def qbfsSingleTermReturnsBeforeSecondSeed : Bool := {tri(guard is not None)}',
         ])
     g.item('clenshaw_qbfs', f'{QP}:clenshaw_qbfs', lambda: get_def(qp, 'clenshaw_qbfs'), cl_qbfs,
            '\n'.join([
@@ -420,7 +473,7 @@ def generate(repo):
             f'def abcQ2dANum (n m : Int) : Int := ({t1} * {t2})',
             f'def abcQ2dBNum (n m : Int) : Int := {Tr(e, "int").expr(nums[0])}',
             f'def abcQ2dCNum (n m : Int) : Int := {Tr(e, "int").expr(nums[1])}',
-            f'def abcQ2dIsNumOverD : Bool := {"true" if okA and okB and okC and order_ok and ret_ok else "false"}',
+            f'def abcQ2dIsNumOverD : Bool := {tri(okA and okB and okC and order_ok and ret_ok)}',
         ])
     g.item('abc_q2d', f'{QP}:abc_q2d', lambda: get_def(qp, 'abc_q2d'), abc,
            '\n'.join([
@@ -512,7 +565,7 @@ def generate(repo):
             f'def cobQ2dTop (c f : K) : K := {top}',
             f'def cobQ2dWriteIdx ({v} N : Int) : Int := {I(index_of(tgt)[0], ["N", v])}',
             f'def cobQ2dLoop (N : Int) : Int × Int × Int := ({I(ra[0], ["N"])}, {I(ra[1], ["N"])}, {I(ra[2], ["N"])})',
-            f'def cobQ2dTopIsLastCoefficient : Bool := {"true" if ok else "false"}',
+            f'def cobQ2dTopIsLastCoefficient : Bool := {tri(ok)}',
         ])
     g.item('change_of_basis_Q2d_to_Pnm', f'{QP}:change_of_basis_Q2d_to_Pnm',
            lambda: get_def(qp, 'change_of_basis_Q2d_to_Pnm'), cob_q2d,
@@ -555,8 +608,8 @@ def generate(repo):
             f'def q2dReadIdx ({v} N : Int) : List Int := [{", ".join(info["reads"])}]',
             f'def q2dLoop (N : Int) : Int × Int × Int := ({info["loopStart"]}, {info["loopStop"]}, {info["loopStep"]})',
             f'def q2dSeed2ABCIdx (N : Int) : Int := {seed2_abc}',
-            f'def q2dSeedsAreTopTwo : Bool := {"true" if top_ok else "false"}',
-            f'def q2dSingleTermReturnsBeforeSecondSeed : Bool := {"true" if guard is not None else "false"}',
+            f'def q2dSeedsAreTopTwo : Bool := {tri(top_ok)}',
+            f'def q2dSingleTermReturnsBeforeSecondSeed : Bool := {tri(guard is not None)}',
         ])
     g.item('clenshaw_q2d', f'{QP}:clenshaw_q2d', lambda: get_def(qp, 'clenshaw_q2d'), cl_q2d,
            '\n'.join([
@@ -631,13 +684,13 @@ def generate(repo):
             f'def q2dReadCorr (a3 : K) : K := {ca}',
             f'def q2dKernel (c s Sa Sb : K) : K := {kern}',
             f'def q2dTerm (um k : K) : K := {tot}',
-            f'def q2dReadsAreUniform : Bool := {"true" if same else "false"}',
-            f'def q2dCorrectionOnlyForMOneAndNGreaterTwo : Bool := {"true" if ga and gb and gpa and gpb else "false"}',
-            f'def q2dEachSideEvaluatedIffItsListNonEmpty : Bool := {"true" if oa and ob and opa and opb and zero_init and na and nb else "false"}',
-            f'def q2dSkipsOnlyWhenBothEmpty : Bool := {"true" if skip_both else "false"}',
-            f'def q2dPairsEveryOrderOfEitherList : Bool := {"true" if pairs_all else "false"}',
-            f'def q2dAzimuthalOrderCountsFromOne : Bool := {"true" if m_count and trig else "false"}',
-            f'def q2dRotationallySymmetricPartOnlyWhenPresent : Bool := {"true" if m0_ok else "false"}',
+            f'def q2dReadsAreUniform : Bool := {tri(same)}',
+            f'def q2dCorrectionOnlyForMOneAndNGreaterTwo : Bool := {tri(ga and gb and gpa and gpb)}',
+            f'def q2dEachSideEvaluatedIffItsListNonEmpty : Bool := {tri(oa and ob and opa and opb and zero_init and na and nb)}',
+            f'def q2dSkipsOnlyWhenBothEmpty : Bool := {tri(skip_both)}',
+            f'def q2dPairsEveryOrderOfEitherList : Bool := {tri(pairs_all)}',
+            f'def q2dAzimuthalOrderCountsFromOne : Bool := {tri(m_count and trig)}',
+            f'def q2dRotationallySymmetricPartOnlyWhenPresent : Bool := {tri(m0_ok)}',
         ])
     g.item('compute_z_zprime_Q2d.sum', f'{QP}:compute_z_zprime_Q2d', lambda: get_def(qp, 'compute_z_zprime_Q2d'), zz,
            '\n'.join([
@@ -655,29 +708,51 @@ def generate(repo):
         b = norm(ast.unparse(find_assign(fn, 'max_m_b')))
         ok_a = a in (norm('max(ac.keys(), default=0)'), norm('max(list(ac.keys()), default=0)'), norm('max(ac, default=0)'))
         ok_b = b in (norm('max(bc.keys(), default=0)'), norm('max(list(bc.keys()), default=0)'), norm('max(bc, default=0)'))
-        mm = norm(ast.unparse(find_assign(fn, 'max_m'))) == norm('max(max_m_a, max_m_b)')
+        bare_a = a in (norm('max(list(ac.keys()))'), norm('max(ac.keys())'), norm('max(ac)'))
+        bare_b = b in (norm('max(list(bc.keys()))'), norm('max(bc.keys())'), norm('max(bc)'))
+        if bare_a or bare_b:
+            return False            # max() of a possibly empty key set: raises for an absent family
+        mm = norm(ast.unparse(find_assign(fn, 'max_m'))) in (norm('max(max_m_a, max_m_b)'), norm('max(max_m_b, max_m_a)'))
         loops = [l for l in for_loops(fn) if any(isinstance(c, ast.Call) and ast.unparse(c.func) == 'ac_ret.append' for c in ast.walk(l))]
-        rng = len(loops) == 1 and norm(ast.unparse(loops[0].iter)) == norm('range(1, max_m + 1)')
+        rng = len(loops) == 1 and norm(ast.unparse(loops[0].iter)) in (norm('range(1, max_m + 1)'), norm('range(1, 1 + max_m)'))
         ret = returns_in_order(fn)[-1]
-        return ok_a and ok_b and mm and rng and norm(ast.unparse(ret)) == norm('(cms, ac_ret, bc_ret)')
+        return True if (ok_a and ok_b and mm and rng and norm(ast.unparse(ret)) == norm('(cms, ac_ret, bc_ret)')) else None
     g.fact('packMaxOverKeysHasDefaultZero', f'{QP}:Q2d_nm_c_to_a_b', pack_fact)
 
     def tdot_fact():
         fn = get_def(ini, 'sum_of_2d_modes')
-        (ret,) = find_returns(fn)
-        return norm(ast.unparse(ret)) == norm('np.tensordot(modes, weights, axes=(0, 0))')
+        ret = returns_in_order(fn)[-1]
+        if not (isinstance(ret, ast.Call) and ast.unparse(ret.func) in ('np.tensordot', 'tensordot') and len(ret.args) >= 2):
+            return None
+        if [ast.unparse(a) for a in ret.args[:2]] != ['modes', 'weights']:
+            return None
+        axes = ret.args[2] if len(ret.args) > 2 else next((k.value for k in ret.keywords if k.arg == 'axes'), None)
+        if axes is None:
+            return None
+        try:
+            val = ast.literal_eval(axes)
+        except Exception:
+            return None
+        flat = tuple(tuple(v) if isinstance(v, (list, tuple)) else (v,) for v in val) if isinstance(val, (list, tuple)) else None
+        if flat == ((0,), (0,)):
+            return True
+        return False if flat is not None else None      # contracts other axes: recognised and wrong
     g.fact('sumOfModesContractsAxisZeroWithWeights', f'{INIT}:sum_of_2d_modes', tdot_fact)
 
     def lstsq_fact():
         fn = get_def(ini, 'lstsq')
-        mask = norm(ast.unparse(find_assign(fn, 'mask'))) == norm('np.isfinite(data)')
-        data = [norm(ast.unparse(v)) for v in find_assigns(fn, 'data')] == [norm('data[mask]')]
+        mask = norm(ast.unparse(find_assign(fn, 'mask'))) in (norm('np.isfinite(data)'), norm('np.isfinite(np.asarray(data))'))
+        data = [norm(ast.unparse(v)) for v in find_assigns(fn, 'data')] in ([norm('data[mask]')], [norm('np.asarray(data)'), norm('data[mask]')])
         modes = [norm(ast.unparse(v)) for v in find_assigns(fn, 'modes')]
-        okm = modes == [norm('np.asarray(modes)'), norm('modes.reshape((modes.shape[0], -1))'), norm('modes[:, mask.ravel()].T')]
+        reshapes = [norm(t) for t in ('modes.reshape((modes.shape[0], -1))', 'modes.reshape(modes.shape[0], -1)', 'modes.reshape(len(modes), -1)',
+                                      'modes.reshape((len(modes), -1))')]
+        selects = [norm(t) for t in ('modes[:, mask.ravel()].T', 'modes[:, mask.reshape(-1)].T', 'modes[:, mask.flatten()].T',
+                                     "modes[:, mask.ravel(order='C')].T")]
+        okm = len(modes) == 3 and modes[0] == norm('np.asarray(modes)') and modes[1] in reshapes and modes[2] in selects
         calls = find_calls(fn, 'np.linalg.lstsq')
         okc = len(calls) == 1 and [ast.unparse(a) for a in calls[0].args[:2]] == ['modes', 'data']
-        (ret,) = find_returns(fn)
-        return mask and data and okm and okc and ast.unparse(ret) == 'c'
+        ret = returns_in_order(fn)[-1]
+        return True if (mask and data and okm and okc and ast.unparse(ret) == 'c') else None
     g.fact('lstsqDropsExactlyNonFiniteSamplesFromDataAndModes', f'{INIT}:lstsq', lstsq_fact)
 
     return g.finish()
